@@ -770,7 +770,10 @@ impl<'a> Gen<'a> {
                         v.skip = true;
                     }
                     // (a skipped variant may still say `word`: skip wins, the variant is never produced)
-                    if matches!(v.body, VBody::Unit) && !have_word && (!v.skip || self.rng.chance(1, 2)) && self.rng.chance(1, 6) {
+                    // it does not use up the one word variant an enum may have, nor does it clash with `from_word`
+                    if matches!(v.body, VBody::Unit) && v.skip && self.rng.chance(1, 3) {
+                        v.word = true;
+                    } else if matches!(v.body, VBody::Unit) && !have_word && !v.skip && self.rng.chance(1, 6) {
                         v.word = true;
                         have_word = true;
                     }
